@@ -1058,6 +1058,8 @@ func main() {
 		err = wiringStage(*out, *seed, *tier)
 	case "files":
 		err = filesStage(*out, *seed, *tier)
+	case "etag":
+		err = etagStage(*out, *seed, *tier)
 	case "interleave":
 		err = interleaveStage(*out, *seed, *tier)
 	default:
